@@ -11,6 +11,7 @@ import decimal
 import random
 import re
 
+from vf.core import hostile_history
 from vf.gen import instances, values
 from vf.monitors import online
 from vf.oracles import ref_decl, ref_sgml
@@ -226,6 +227,14 @@ def one(ctx, name, cls, seedstr, forms):
 
     rng = random.Random(seedstr)
     case = {"cls": name, "seedstr": seedstr}
+    if ctx.replay_case is not None:
+        hostile_history.replay_history(ctx.replay_case["case"].get("broken_before"))
+    else:
+        if ctx.rng.random() < 0.06:
+            hostile_history.disturb(ctx.rng)  # a broken document read (and refused) right before: must leave nothing behind
+            ctx.count("after_broken_document")
+        case["broken_before"] = list(hostile_history.HISTORY[-40:])
+    ctx.current_case = case
     try:
         inst = instances.build(cls, rng, "random", opts=instances.Opts(value_fn=hostile(ctx), maxdepth=6))
     except instances.ConstructorRejected:
